@@ -334,6 +334,23 @@ theorem C33_entity_flush_nested (H : Hooks) (ord : State → List Nat → List N
       rw [hkeys] at this
       simpa [hp'] using this
 
+/-- obj.flush() of an object that was DELETED is the session flush (de6b988): every pending object is written in queue order, each
+    statement with its own before- and after-hook entry, and afterwards nothing is pending -/
+theorem C33_obj_flush_deleted (H : Hooks) (ord : State → List Nat → List Nat) (bfuel depth : Nat) (hperm : ∀ st l, (ord st l).Perm l)
+    (s s' : State) (o : Nat) (hinv : Inv s) (hsv : s.saved = []) (hk : s.kindAt o = some .delete)
+    (h : objFlushN H ord bfuel depth s o = .ok s') :
+    (∃ t, s'.trace = s.trace ++ t ∧ Balanced t) ∧ (∀ p, some p ∉ s'.queue) := by
+  have h' : flushN H ord bfuel depth s = .ok s' := by simpa [objFlushN, hk] using h
+  exact ⟨C33_nested_once H ord bfuel depth hperm s s' hinv hsv h', (C33_nested_saved H ord bfuel depth hperm s s' hinv hsv h').1⟩
+
+/-- obj.flush() of a created or modified object takes the per-object path, to which `C33_entity_flush_nested` applies -/
+theorem C33_obj_flush_pending (H : Hooks) (ord : State → List Nat → List Nat) (bfuel depth : Nat) (s : State) (o : Nat)
+    (hk : s.kindAt o ≠ some .delete) : objFlushN H ord bfuel depth s o = entityFlushRefsN H ord bfuel depth s o := by
+  unfold objFlushN
+  split
+  · rename_i h; exact absurd h hk
+  · rfl
+
 /-- what acceptance by the automaton means in numbers: over the trace, as many before_X(o) entries as X-statements for o as
     after_X(o) entries -/
 theorem C33_balanced_counts (t : List Event) (h : Balanced t) (k : Kind) (o : Nat) :
